@@ -259,7 +259,7 @@ func pow2(bits int) Term {
 	case 32:
 		return IntLit(4294967296)
 	case 63:
-		return IntLit(9223372036854775807 / 2 + 1) // unused
+		return IntLit(9223372036854775807/2 + 1) // unused
 	case 64:
 		return Term{"18446744073709551616", SInt}
 	}
